@@ -17,7 +17,9 @@ OUT="$DIR/RESULTS.tsv"
 while IFS=$'\t' read -r name prop expect; do
     [ -n "$name" ] || continue
     case "$name" in *"$FILTER"*) ;; *) continue;; esac
-    if ! git -C /repo apply "$DIR/$name.diff"; then
+    patch="$DIR/$name.diff"
+    [ -f "$patch" ] || patch="$DIR/$name/patch.diff"
+    if ! git -C /repo apply "$patch"; then
         printf '%s\t%s\t%s\tPATCH-DOES-NOT-APPLY\t-\t-\t-\tSKIPPED\n' "$name" "$prop" "$expect" >>"$OUT"
         continue
     fi
@@ -41,6 +43,7 @@ while IFS=$'\t' read -r name prop expect; do
     done
     git -C /repo checkout -- .
     if [ "$baseline" = "FAIL" ]; then verdict="INVALID-MUTANT(baseline fails)";
+    elif printf "$row" | grep -q "exit2"; then verdict="INVALID-MUTANT(does not build with serde + hooks, or harness error)";
     elif [ "$expect" = "caught" ] && [ $caught -eq 1 ]; then verdict="ok-caught";
     elif [ "$expect" = "caught" ]; then verdict="MISSED";
     elif [ $caught -eq 1 ]; then verdict="FALSE-ALARM";
